@@ -198,7 +198,7 @@ def extract(repo):
     lists = {d for d in dl if set(d) <= set(",)")}
     if lists != {",)"}:
         raise ValueError(f"STEPattribute::STEPread: delimiter lists changed: {sorted(dl)}")
-    m = re.search(r"if\(\s*c\s*==\s*'\$'\s*\)\s*\{\s*in\.ignore\(\);\s*CheckRemainingInput\([^;]*\);\s*\}\s*if\(\s*Nullable\(\)\s*\)\s*\{(.*?)\}\s*else\s+if\(\s*!strict\s*\)", sr, re.S)
+    m = re.search(r"if\(\s*c\s*==\s*'\$'\s*\)\s*\{\s*in\.ignore\(\);\s*CheckRemainingInput\([^;]*\);\s*\}\s*if\(\s*Nullable\(\)\s*\)\s*\{(.*?)\}\s*else\s+if\(\s*!strict\b[^{};]*\)\s*\{", sr, re.S)
     if not m:
         raise ValueError("STEPattribute::STEPread: `$` branch changed")
     t = m.group(1).strip()
